@@ -89,17 +89,17 @@ def build(tier, work, builder):
     jobs = []
     fn = "TypeChecker::checkExpression case %s + epilogue; type_t::is_* predicates; typechecker.cpp helper predicates"
     for op in OPS:
-        jobs.append(F.Job(f"c10_step_{op}", f"h_c10_step_{op}", [tcobj, hobj], timeout=300, unwind=4 if op in ("EQ", "NEQ") else None,
+        jobs.append(F.Job(f"c10_step_{op}", f"h_c10_step_{op}", [tcobj, hobj], timeout=300, unwind=3,
                           bound_note="record width <= 2 in areEquivalent's field loop (unwinding assertion on)" if op in ("EQ", "NEQ") else "",
                           functions=[fn % op] + (["TypeChecker::areEqCompatible", "TypeChecker::areEquivalent (top level; recursion by contract)"] if op in ("EQ", "NEQ") else []),
                           note="all base kinds x all wrapper sets for both operands; all ghost values satisfying the induction hypothesis"))
     for op in RELS:
-        jobs.append(F.Job(f"c10_kf1_step_{op}", f"h_c10_step_{op}", [tcobj, hobj_kf], timeout=300, unwind=4 if op in ("EQ", "NEQ") else None,
+        jobs.append(F.Job(f"c10_kf1_step_{op}", f"h_c10_step_{op}", [tcobj, hobj_kf], timeout=300, unwind=3,
                           functions=[fn % op], known={r"c10\.step\.(integral-type-implies-clock-free|guard-or-invariant-type-implies-convex)": "C10-KF1"},
                           note="same harness without the exclusion of the known-finding input class: expected to fail only inside it"))
     for op in RELS:
-        jobs.append(F.Job(f"c10_atom_{op}", f"h_c10_atom_{op}", [tcobj, hobj], timeout=300, functions=[fn % op], unwind=4 if op in ("EQ", "NEQ") else None))
-    jobs.append(F.Job("c10_conj", "h_c10_conj", [tcobj, hobj], timeout=300, functions=[fn % "AND"]))
+        jobs.append(F.Job(f"c10_atom_{op}", f"h_c10_atom_{op}", [tcobj, hobj], timeout=300, functions=[fn % op], unwind=3))
+    jobs.append(F.Job("c10_conj", "h_c10_conj", [tcobj, hobj], timeout=300, unwind=3, functions=[fn % "AND"]))
     jobs.append(F.Job("c10_gate_guard", "h_c10_gate_guard", [tcobj, hobj], timeout=300, functions=["TypeChecker::visitEdge (guard acceptance gate)"]))
     jobs.append(F.Job("c10_gate_invariant", "h_c10_gate_invariant", [tcobj, hobj], timeout=300, functions=["TypeChecker::visitLocation (invariant acceptance gate)"]))
     jobs.append(F.Job("c10_imply", "h_c10_imply", [iobj], timeout=120, functions=["parser.y: Expression T_KW_IMPLY Expression (callback sequence)"], safety=False))
